@@ -295,7 +295,132 @@ pub fn check_bytes(ctx: &mut Ctx, class: &str, bytes: &[u8]) {
     ctx.prop(class, &format!("c03 {} {} {}", hexarg(bytes), orc, dr.replace(' ', "~")), "ok");
 }
 
+/// `k` wrappers of kind `w` around NIL_EXT: the innermost term sits at nesting depth `k`
+fn tower(w: &str, k: usize) -> Vec<u8> {
+    let mut b = vec![131u8];
+    let mut close: Vec<Vec<u8>> = vec![];
+    for _ in 0..k {
+        match w {
+            "tuple" => b.extend_from_slice(&[104, 1]),
+            "large_tuple" => b.extend_from_slice(&[105, 0, 0, 0, 1]),
+            "list_elem" => {
+                b.extend_from_slice(&[108, 0, 0, 0, 1]);
+                close.push(vec![106]);
+            }
+            "list_tail" => b.extend_from_slice(&[108, 0, 0, 0, 1, 97, 0]),
+            "map_key" => {
+                b.extend_from_slice(&[116, 0, 0, 0, 1]);
+                close.push(vec![97, 0]);
+            }
+            "map_value" => b.extend_from_slice(&[116, 0, 0, 0, 1, 97, 0]),
+            "local" => b.extend_from_slice(&[121, 1, 2, 3, 4, 5, 6, 7, 8]),
+            _ => unreachable!(),
+        }
+    }
+    b.push(106);
+    for c in close.iter().rev() {
+        b.extend_from_slice(c);
+    }
+    b
+}
+
+/// the published limits, from both sides: a valid encoding that stays within them must be decoded (completeness,
+/// `C03_valid_is_decoded`); the first one beyond them is pinned by the correspondence and counted
+fn limits(ctx: &mut Ctx) {
+    // decoder.rs MAX_NESTING_DEPTH (private there; the Lean side uses the regenerated constant, so a change shows up
+    // as a disagreement on the `c03lim` lines below)
+    let cap = 256usize;
+    for w in ["tuple", "large_tuple", "list_elem", "list_tail", "map_key", "map_value", "local"] {
+        for (k, side) in [(cap - 1, "within"), (cap, "within"), (cap + 1, "beyond"), (cap + 2, "beyond")] {
+            let b = tower(w, k);
+            ctx.count(&format!("limit_depth_{}", side));
+            ctx.tie("limit", &format!("c03lim {} -", hexarg(&b)), side);
+            check_bytes(ctx, "limit", &b);
+        }
+    }
+    // the node atom of an identifier and the parts of a fun are one level deeper than the identifier / fun
+    for (k, side) in [(cap - 1, "within"), (cap, "beyond")] {
+        for inner in [
+            vec![88u8, 119, 1, 97, 0, 0, 0, 1, 0, 0, 0, 2, 0, 0, 0, 3],
+            vec![90, 0, 1, 100, 0, 1, 97, 0, 0, 0, 3, 0, 0, 0, 9],
+            vec![120, 115, 1, 97, 0, 0, 0, 0, 0, 0, 0, 1, 0, 0, 0, 3],
+            vec![113, 119, 1, 109, 119, 1, 102, 97, 2],
+        ] {
+            let mut b = tower("tuple", k);
+            b.pop();
+            b.extend_from_slice(&inner);
+            ctx.count(&format!("limit_depth_{}", side));
+            ctx.tie("limit", &format!("c03lim {} -", hexarg(&b)), side);
+            check_bytes(ctx, "limit", &b);
+        }
+    }
+    // forms of the fields whose form the format prescribes: (bytes, side)
+    let pid = [88u8, 119, 1, 97, 0, 0, 0, 1, 0, 0, 0, 2, 0, 0, 0, 3];
+    let fun = |oi: &[u8], ou: &[u8], pidb: &[u8]| {
+        let mut body = vec![2u8];
+        body.extend_from_slice(&[7u8; 16]);
+        body.extend_from_slice(&[0, 0, 0, 5, 0, 0, 0, 1]);
+        body.extend_from_slice(&[119, 1, 109]);
+        body.extend_from_slice(oi);
+        body.extend_from_slice(ou);
+        body.extend_from_slice(pidb);
+        body.extend_from_slice(&[97, 9]);
+        let mut b = vec![131u8, 112];
+        b.extend_from_slice(&((body.len() + 4) as u32).to_be_bytes());
+        b.extend_from_slice(&body);
+        b
+    };
+    let mut local_pid = vec![121u8, 1, 2, 3, 4, 5, 6, 7, 8];
+    local_pid.extend_from_slice(&pid);
+    let mut zero_list_node = vec![131u8, 88, 108, 0, 0, 0, 0, 119, 1, 97];
+    zero_list_node.extend_from_slice(&[0, 0, 0, 1, 0, 0, 0, 2, 0, 0, 0, 3]);
+    let cases: Vec<(Vec<u8>, &str)> = vec![
+        (fun(&[97, 3], &[98, 0, 0, 1, 0], &pid), "within"),
+        (fun(&[98, 0, 0, 0, 3], &[97, 4], &pid), "within"),
+        (fun(&[110, 1, 0, 3], &[97, 4], &pid), "beyond"),
+        (fun(&[97, 3], &[111, 0, 0, 0, 1, 0, 4], &pid), "beyond"),
+        (fun(&[97, 3], &[97, 4], &local_pid), "beyond"),
+        (fun(&[98, 255, 255, 255, 255], &[97, 4], &pid), "invalid"),
+        (vec![131, 113, 119, 1, 109, 119, 1, 102, 98, 0, 0, 0, 255], "within"),
+        (vec![131, 113, 119, 1, 109, 119, 1, 102, 98, 0, 0, 1, 0], "invalid"),
+        (vec![131, 113, 119, 1, 109, 119, 1, 102, 110, 1, 0, 2], "beyond"),
+        (vec![131, 113, 100, 0, 1, 109, 115, 1, 102, 97, 2], "within"),
+        (zero_list_node, "beyond"),
+        (vec![131, 108, 0, 0, 0, 0, 106], "within"),
+        (vec![131, 108, 0, 0, 0, 0, 119, 1, 97], "within"),
+        (vec![131, 107, 0, 0], "within"),
+        (vec![131, 109, 0, 0, 0, 0], "within"),
+        (vec![131, 77, 0, 0, 0, 0, 8], "within"),
+        (vec![131, 77, 0, 0, 0, 0, 7], "invalid"),
+        (vec![131, 110, 0, 0], "within"),
+        (vec![131, 110, 0, 1], "within"),
+        (vec![131, 111, 0, 0, 0, 2, 7, 1, 0], "within"),
+        (vec![131, 105, 0, 0, 0, 0], "within"),
+        (vec![131, 116, 0, 0, 0, 0], "within"),
+    ];
+    for (b, side) in cases {
+        ctx.count(&format!("limit_form_{}", side));
+        ctx.tie("limit", &format!("c03lim {} -", hexarg(&b)), side);
+        check_bytes(ctx, "limit", &b);
+    }
+    // bytes after one complete valid term: the error carries their number, for every top-level form
+    for head in [vec![106u8], vec![97, 5], vec![104, 0], vec![108, 0, 0, 0, 1, 97, 1, 106], vec![116, 0, 0, 0, 0], vec![109, 0, 0, 0, 1, 9]] {
+        for k in 1..=3usize {
+            let mut b = vec![131u8];
+            b.extend_from_slice(&head);
+            b.extend(std::iter::repeat(head[0]).take(k));
+            ctx.count("limit_trailing");
+            check_bytes(ctx, "limit", &b);
+            match erltf::decode(&b) {
+                Err(erltf::errors::DecodeError::TrailingData(m)) if m == k => {}
+                other => ctx.fail("c03-trailing-ignored", &format!("{} -> {:?}", hex(&b), other.map(|t| term_text(&t)))),
+            }
+        }
+    }
+}
+
 pub fn run(ctx: &mut Ctx) {
+    limits(ctx);
     let n = ctx.n(1200, 40000);
     let cfg = Cfg { huge: false, local_ids: false, ..Cfg::default() };
     for _ in 0..n {
